@@ -166,8 +166,15 @@ static void seq_faults(vh_rng* r, int kind, int et, int size) {
   for (int i = 0; i < size; i++) { int64_t v = i * 3 + 1; var x = mk_elem(kind, et, v, NULL); push(c, x); if (kind != SK_TUPLE) { del_raw(x); } m[n++] = v; }
   if (size == 0) {
     /* the ways of being empty: never filled, drained one by one, emptied with resize(c, 0) */
-    int how = (int)vh_below(r, 3), k = 1 + (int)vh_below(r, 20);
-    if (how > 0) {
+    int how = (int)vh_below(r, kind == SK_ARRAY ? 5 : 3), k = 1 + (int)vh_below(r, 20);
+    if (how == 3) {
+      /* an Array that never held anything but has room reserved */
+      resize(c, (size_t)k); vh_count("empty_arrays_with_reserved_room");
+    } else if (how == 4) {
+      /* ... or that was emptied by resizing to zero and had room reserved again */
+      for (int i = 0; i < k; i++) { var x = mk_elem(kind, et, 5 + i, NULL); push(c, x); del_raw(x); }
+      resize(c, 0); resize(c, (size_t)k + 2); vh_count("empty_arrays_with_reserved_room");
+    } else if (how > 0) {
       for (int i = 0; i < k; i++) { var x = mk_elem(kind, et, 5 + i, NULL); push(c, x); if (kind != SK_TUPLE) { del_raw(x); } }
       if (how == 1) { while (len(c) > 0) { if (vh_chance(r, 50)) { pop(c); } else { pop_at(c, $I(0)); } } vh_count("empty_after_draining"); }
       else { resize(c, 0); vh_count("empty_after_resize_0"); }
